@@ -43,6 +43,7 @@ func ruleReplyDiscipline(c *Ctx) {
 			}
 			return true
 		})
+
 		fs = append(fs, st)
 		byKey[fn.Key] = st
 	}
@@ -73,6 +74,7 @@ func ruleReplyDiscipline(c *Ctx) {
 				}
 				return true
 			})
+
 		}
 	}
 	flushWr := c.P.wrapperSet(func(s *Scope) EvPred {
